@@ -210,6 +210,8 @@ func compareCascade(d *dom, inItems, outItems []fitem, vars []string, r *Rng, st
 
 var boxLonghandRe = regexp.MustCompile(`^(margin-(top|right|bottom|left)|padding-(top|right|bottom|left)|top|right|bottom|left|border-(top|bottom)-(left|right)-radius)$`)
 
+var ampInPseudoArgRe = regexp.MustCompile(`:(is|not|where)\([^{}]*&`)
+
 func insetLowered(o glueOpts) bool {
 	if ok, set := o.supported["inset-property"]; set && !ok {
 		return true
@@ -286,6 +288,11 @@ func glueTransformCase(r *Rng, st *Stats, src string, d *dom, o glueOpts, scenar
 						scenario = "inset-lowering-splits-value-invalidation"
 					}
 				}
+			}
+			if scenario == "" && len(o.engines) > 0 && o.engines[0].Version != "100" && ampInPseudoArgRe.MatchString(src) {
+				// known finding C12-N: without :is(), "&" inside a pseudo-class argument under a
+				// multi-selector parent is substituted by the FIRST parent selector in every copy
+				scenario = "nesting-amp-in-pseudo-arg-without-is"
 			}
 			if scenario == "" && len(o.engines) > 0 && o.engines[0].Version != "100" && strings.Contains(fmt.Sprint(vars), "nesting") && !strings.Contains(out, ":is(") {
 				// known limitation: for engines without :is() a multi-selector parent is
@@ -480,6 +487,7 @@ func glueCorpus(r *Rng, st *Stats) {
 	mk("b", 1, "c2")
 	mk("a", 3)
 	mk("span", 0)
+	mk("b", 4)
 	count := map[int]int{}
 	for i := range d.nodes {
 		d.nodes[i].index = count[d.nodes[i].parent]
@@ -501,6 +509,9 @@ func glueCorpus(r *Rng, st *Stats) {
 		{"a{width:1.5e10px;order:1.0e10;height:1.50e2px;z-index:10.0e0}", min, "mangle-number-strips-exponent-zeros"},
 		{"b{inset:1px 2px 3px 4px} b.c2{inset:var(--v) 0 0 0}", noInset, "inset-lowering-skips-unsplittable-value"},
 		{"*, a:-moz-foo { color: red !important; > b { color: blue } }", noNest, "nesting-lowering-wraps-parent-in-forgiving-is"},
+		{"a { & b { color: red } } .c1 { & b { color: red } } a b { color: blue }", min, ""},
+		{"a { :not(&) > b { color: red } } span { :not(&) > b { color: red } }", min, ""},
+		{"div, a { :not(&).c1 { color: red } } .c1 { order: 1 }", glueOpts{loader: api.LoaderCSS, engines: []api.Engine{{Name: api.EngineFirefox, Version: "70"}}, desc: "loader=css target=firefox70"}, "nesting-amp-in-pseudo-arg-without-is"},
 		{"div, #i9 { > a { color: red } } div > a.c1 { color: blue }", glueOpts{loader: api.LoaderCSS, engines: []api.Engine{{Name: api.EngineChrome, Version: "60"}}, desc: "loader=css target=chrome60"}, "nesting-expansion-without-is-changes-specificity"},
 		{"a{margin:1px;margin-left:2px;margin-top:1vw;margin-left:3px} b{padding:1em 9px;padding-left:0;padding-bottom:1vw;padding-left:1em}", min, ""},
 		{"a{border-radius:1px;border-top-left-radius:2px;border-top-right-radius:1vw;border-top-left-radius:3px}", min, ""},
